@@ -482,6 +482,72 @@ def variant_cases(ctx, found, bvals, quick):
     return cases
 
 
+def measure_statistics_through_api(ctx, ns):
+    """Part (d) as an application sees it: the creator calls create_measure(basis_local=B, basis_remote=B), the
+    receiver calls recv_measure(...) on ITS socket (stating the bases if - and only as far as - the public API lets
+    it), the link layer delivers B_b and the raw outcomes.  The joint distribution of (receiver's post-processed
+    outcome, creator's outcome) must be that of measuring Phi+ in basis B on both sides.  All 6 named bases x 4 Bell
+    states; the raw-outcome distribution comes from the state-vector oracle."""
+    from netqasm.sdk.epr_socket import EPRSocket
+    qc = ns.qc
+    accepted = inspect.signature(EPRSocket.recv_measure).parameters
+    can_state = "basis_local" in accepted and "basis_remote" in accepted
+    ctx.coverage["recv_measure_can_state_bases"] = can_state
+    phi = bellvec("PHI_PLUS")
+    nrun = 0
+    for bname, r in ec.SPEC_BASIS_ROT.items():
+        R = rotm("x", r[2]) @ rotm("y", r[1]) @ rotm("x", r[0])
+        RR = np.kron(R, R)
+        ref = np.abs(RR @ phi) ** 2
+        # creator: raw outcomes are handed out as they are
+        cre = {}
+        for m in (0, 1):
+            case = dict(call="create_measure", kw=dict(number=1, basis_local=bname, basis_remote=bname), node=1, sock=0,
+                        own_node=0)
+            d = dict(type=qc.ReturnType.OK_M.value, create_id=7, measurement_outcome=m, measurement_basis=qc.Basis.Z.value,
+                     directionality_flag=0, sequence_number=0, purpose_id=0, remote_node_id=1, goodness=5,
+                     bell_state=qc.BellState.PSI_MINUS.value)
+            case["resp"] = [[d[f] for f in qc.LinkLayerOKTypeM._fields]]
+            res = ec.run_case(ctx.repo, ns, case)
+            nrun += 1
+            cre[m] = None if (res.error or not res.handles) else res.handles["meas"][0]["measurement_outcome"]
+        if cre != {0: 0, 1: 1}:
+            ctx.violation("measure-directly: the creator's outcome handle does not return the raw outcome",
+                          dict(call="create_measure", basis=bname, outcomes=cre), key=None)
+        for b in qc.BellState:
+            tab = {}
+            for m in (0, 1):
+                kw = dict(number=1, expect_phi_plus=True)
+                if can_state:
+                    kw.update(basis_local=bname, basis_remote=bname)
+                case = dict(call="recv_measure", kw=kw, node=1, sock=0, own_node=0)
+                d = dict(type=qc.ReturnType.OK_M.value, create_id=7, measurement_outcome=m,
+                         measurement_basis=qc.Basis.Z.value, directionality_flag=1, sequence_number=0, purpose_id=0,
+                         remote_node_id=1, goodness=5, bell_state=b.value)
+                case["resp"] = [[d[f] for f in qc.LinkLayerOKTypeM._fields]]
+                res = ec.run_case(ctx.repo, ns, case)
+                nrun += 1
+                tab[m] = None if (res.error or not res.handles) else res.handles["meas"][0]["measurement_outcome"]
+            ctx.note_case(("api-stat", bname, b.name), nontrivial=b != qc.BellState.PHI_PLUS)
+            replay = dict(creator_call=f"create_measure(basis_local={bname}, basis_remote={bname})",
+                          receiver_call="recv_measure(" + ", ".join(f"{k}={v}" for k, v in kw.items()) + ")",
+                          basis=bname, rotations=list(r), bell_state=b.name, receiver_outcome_raw_to_handle=tab)
+            if tab[0] not in (0, 1) or tab[1] not in (0, 1):
+                ctx.violation("measure-directly receive raised / gave no outcome", replay, key=None)
+                continue
+            dist = np.abs(RR @ bellvec(b.name)) ** 2      # (receiver raw, creator raw), receiver's qubit first
+            post = np.zeros(4)
+            for ml in (0, 1):
+                for mr in (0, 1):
+                    post[2 * tab[ml] + mr] += dist[2 * ml + mr]
+            if np.max(np.abs(post - ref)) > 1e-9:
+                replay.update(joint_distribution_seen_by_the_applications=post.round(6).tolist(),
+                              joint_distribution_phi_plus=ref.round(6).tolist())
+                ctx.violation("measure-directly through the socket API: the outcomes the two applications see do not have "
+                              "the joint statistics of Phi+ in the requested basis", replay, key=None)
+    return nrun
+
+
 def measure_variant_runs(ctx, ns, found, quick):
     """measure-directly variants taking expect_phi_plus: with the expectation off the handle returns the
     raw outcome; with it on (default Z basis on both sides) the outcome is flipped exactly for the states in which
@@ -681,6 +747,7 @@ def run(ctx):
     ctx.coverage["public_epr_socket_methods"] = public
     cases += variant_cases(ctx, found, bvals, quick)
     nmeas = measure_variant_runs(ctx, ns, found, quick)
+    nmeas += measure_statistics_through_api(ctx, ns)
     dist["api:measure-directly runs"] = nmeas
     for k, case in enumerate(cases):
         case.setdefault("seed", k)
